@@ -3,4 +3,4 @@
 logs=$1; shift; mkdir -p $logs
 run_prop() { p=$1; for k in 1 2 3; do d=/tmp/ref-out/$p-$k; [ -f $d/patch.diff ] || continue; echo "=== $p-$k"; /verif/tools/reftest.sh $d $p 2>&1; done > $logs/$p.log 2>&1; }
 export -f run_prop; export logs
-echo "$@" | tr ' ' '\n' | xargs -P 4 -I{} bash -c 'run_prop {}'
+echo "$@" | tr ' ' '\n' | xargs -P ${PAR:-4} -I{} bash -c 'run_prop {}'
